@@ -48,6 +48,8 @@ def rand_artifacts(rng, hostile=0.2):
         d[p] = scen.digest(rng.randrange(256), alg)
         if rng.random() < 0.15:
             d[p].update(scen.digest(rng.randrange(256), "sha512" if alg == "sha256" else "sha256"))
+        elif rng.random() < 0.06:
+            d[p] = {}          # an artifact recorded without any digest is a legitimate (if unhelpful) entry
     return d
 
 
